@@ -3,13 +3,13 @@
 package main
 
 import (
-	"net/http"
 	"context"
 	"crypto/sha256"
 	"encoding/base64"
 	"encoding/json"
 	"errors"
 	"fmt"
+	"net/http"
 	"net/url"
 	"sort"
 	"strings"
@@ -149,21 +149,25 @@ func vTokenMatrix() []*vTokenSpec {
 	// combinations: an invalid clause together with otherwise attractive claims
 	add("wrong-key+admin-groups", func(t *vTokenSpec) { t.key = vKeyRSA2; t.sigOK = false; t.claims["groups"] = []interface{}{"admins"} })
 	add("wrong-aud+verified", func(t *vTokenSpec) { t.claims["aud"] = "x"; t.audOK = false; t.claims["email_verified"] = true })
-	add("expired+list-aud", func(t *vTokenSpec) { t.claims["exp"] = now - 10; t.expOK = false; t.claims["aud"] = []interface{}{clientID} })
+	add("expired+list-aud", func(t *vTokenSpec) {
+		t.claims["exp"] = now - 10
+		t.expOK = false
+		t.claims["aud"] = []interface{}{clientID}
+	})
 	return out
 }
 
 type vOCfg struct {
-	name          string
-	audClaims     []string
-	extraAud      []string
-	emailClaim    string
-	allowUnverif  bool
-	skipIssuer    bool
-	discovery     bool
-	profile       string // "", "ok", "fail"
-	userIDClaim   string // the deprecated user-id-claim option when it differs from the e-mail claim
-	legacy        bool   // the provider is configured through the legacy flag set and its conversion
+	name         string
+	audClaims    []string
+	extraAud     []string
+	emailClaim   string
+	allowUnverif bool
+	skipIssuer   bool
+	discovery    bool
+	profile      string // "", "ok", "fail"
+	userIDClaim  string // the deprecated user-id-claim option when it differs from the e-mail claim
+	legacy       bool   // the provider is configured through the legacy flag set and its conversion
 }
 
 func (c vOCfg) sx() vsx {
@@ -248,8 +252,78 @@ func vProfileSX(c vOCfg, haveAccessToken bool) vsx {
 	return vSome(vSome(vJSONSX(vProfileClaims)))
 }
 
+// vC04BearerSequence: the identity of a bearer-token session comes from THAT token's claims, whatever tokens were
+// presented before it on the same proxy (both the provider's own issuer and an extra JWT issuer, whose converter is
+// built once for the proxy's lifetime).  Oracle: the answer to a token is the same after any other token as on a
+// fresh proxy.
+func vC04BearerSequence(t *testing.T, out *vEmitter) {
+	mk := func() *vEnv {
+		return vNewEnv(t, vEnvCfg{oidc: true, extraJWT: true, mod: func(o *options.Options) {
+			o.SkipJwtBearerTokens = true
+			o.Providers[0].OIDCConfig.InsecureSkipNonce = true
+			o.InjectResponseHeaders = append(o.InjectResponseHeaders,
+				options.Header{Name: "X-Auth-Email", Values: []options.HeaderValue{{ClaimSource: &options.ClaimSource{Claim: "email"}}}},
+				options.Header{Name: "X-Auth-User", Values: []options.HeaderValue{{ClaimSource: &options.ClaimSource{Claim: "user"}}}},
+				options.Header{Name: "X-Auth-Groups", Values: []options.HeaderValue{{ClaimSource: &options.ClaimSource{Claim: "groups"}}}},
+				options.Header{Name: "X-Auth-Preferred", Values: []options.HeaderValue{{ClaimSource: &options.ClaimSource{Claim: "preferred_username"}}}})
+		}})
+	}
+	type tk struct {
+		label string
+		raw   string
+	}
+	full := map[string]interface{}{"groups": []interface{}{"admins", "ops"}, "preferred_username": "admin", "email_verified": true}
+	var toks []tk
+	for _, iss := range []string{"own", "extra"} {
+		cl := vClaims
+		if iss == "extra" {
+			cl = vClaims2
+		}
+		toks = append(toks,
+			tk{iss + "/full", vJWT(vKeyRSA, "RS256", cl("admin@example.com", full))},
+			tk{iss + "/sparse", vJWT(vKeyRSA, "RS256", cl("x", map[string]interface{}{"email": nil, "sub": "someone-else", "groups": nil, "preferred_username": nil}))},
+			tk{iss + "/no-groups", vJWT(vKeyRSA, "RS256", cl("bob@example.com", map[string]interface{}{"sub": "bob", "groups": nil}))},
+			tk{iss + "/empty-groups", vJWT(vKeyRSA, "RS256", cl("carol@example.com", map[string]interface{}{"sub": "carol", "groups": []interface{}{}, "preferred_username": ""}))},
+		)
+	}
+	ask := func(e *vEnv, raw string) string {
+		req, err := vRawRequest(vBuildRaw("GET", "/oauth2/auth", "app.example.com", [][2]string{{"Authorization", "Bearer " + raw}}, ""))
+		if err != nil {
+			t.Fatal(err)
+		}
+		res := e.serve(req)
+		return fmt.Sprintf("%d email=%q user=%q groups=%q preferred=%q", res.Status, res.Header.Get("X-Auth-Email"), res.Header.Get("X-Auth-User"),
+			res.Header.Get("X-Auth-Groups"), res.Header.Get("X-Auth-Preferred"))
+	}
+	alone := map[string]string{}
+	for _, tkn := range toks {
+		alone[tkn.label] = ask(mk(), tkn.raw)
+	}
+	accepted := 0
+	e := mk()
+	for _, first := range toks {
+		for _, second := range toks {
+			_ = ask(e, first.raw)
+			got := ask(e, second.raw)
+			if strings.HasPrefix(got, "202") {
+				accepted++
+			}
+			out.Obs("bearer-sequence", true, vL(vS(first.label), vS(second.label), vS(got)))
+			out.Stat("bearer_sequences", 1)
+			if got != alone[second.label] {
+				out.Violation("oidc/identity-not-from-this-token", "the identity of a bearer-token session depends on a token presented earlier",
+					map[string]interface{}{"earlier": first.label, "token": second.label, "answer": got, "answer_on_fresh_proxy": alone[second.label]})
+			}
+		}
+	}
+	if accepted == 0 {
+		t.Fatalf("no bearer token was accepted in the sequence sweep")
+	}
+}
+
 func driveC04(t *testing.T, out *vEmitter) {
 	vKeys()
+	defer vC04BearerSequence(t, out)
 	cfgs := []vOCfg{
 		{name: "default", audClaims: []string{"aud"}, extraAud: []string{"extra-aud"}, emailClaim: "email"},
 		{name: "custom-aud-claim", audClaims: []string{"client", "aud"}, emailClaim: "email"},
@@ -424,8 +498,82 @@ func driveC04(t *testing.T, out *vEmitter) {
 }
 
 // ---- C05 ----
+// vC05GenericPKCE: providers outside the OIDC family redeem the code with ProviderData.Redeem.  Whatever other
+// parameters that request carries (a protected resource, for instance), the verifier kept for THIS login is
+// presented exactly when a challenge was sent, and it is the one the challenge was derived from.
+func vC05GenericPKCE(t *testing.T, out *vEmitter) {
+	for _, method := range []string{"", "S256", "plain"} {
+		for _, resource := range []string{"", "https://api.example.com/"} {
+			for _, perReq := range []bool{false, true} {
+				e := vNewEnv(t, vEnvCfg{mod: func(o *options.Options) {
+					pr := &o.Providers[0]
+					pr.Type = "digitalocean"
+					pr.ID = "digitalocean=verif"
+					pr.ClientID = clientID
+					pr.ClientSecret = clientSecret
+					pr.LoginURL = vIssuer + "/do/authorize"
+					pr.RedeemURL = vIssuer + "/do/token"
+					pr.ProfileURL = vIssuer + "/do/account"
+					pr.ValidateURL = vIssuer + "/do/account"
+					pr.CodeChallengeMethod = method
+					pr.ProtectedResource = resource
+					o.Cookie.CSRFPerRequest = perReq
+					o.EmailDomains = []string{"*"}
+				}})
+				e.idp.onPath["/do/account"] = func(*http.Request) (int, string, string, error) {
+					return 200, "application/json", `{"account":{"email":"user@example.com"}}`, nil
+				}
+				seen := map[string]bool{}
+				for i := 0; i < 3; i++ {
+					b := e.newBrowser("https://app.example.com")
+					l := b.start("/x")
+					_, _, kept := vCsrfRaw(e.opts.Cookie.Secret, vCsrfCookieOf(e, l.Start).Value)
+					var form url.Values
+					calls := 0
+					e.idp.onPath["/do/token"] = func(*http.Request) (int, string, string, error) {
+						return 200, "application/json", `{"access_token":"at-generic","expires_in":3600}`, nil
+					}
+					e.idp.Reset()
+					cb := b.callback(l.State, "code")
+					for _, c := range e.idp.Calls("/do/token") {
+						form = c.Form
+						calls++
+					}
+					issued := e.sessionCookieSet(cb)
+					presented := form["code_verifier"]
+					out.Obs("generic-pkce", true, vL(vS(method), vS(resource), vBool(perReq), vS(l.Method), vBool(l.Challenge != ""), vI(int64(len(presented))), vBool(issued)))
+					out.Stat("generic_pkce_logins", 1)
+					det := map[string]interface{}{"method": method, "resource": resource, "per_request": perReq, "challenge_sent": l.Challenge != "", "verifiers_presented": len(presented), "token_calls": calls}
+					switch {
+					case calls != 1 || !issued:
+						out.Violation("pkce-nonce/own-login-failed", "a login carrying its own state and CSRF cookie did not complete", det)
+					case method == "" && (l.Challenge != "" || len(presented) != 0):
+						out.Violation("pkce-nonce/unexpected-challenge", "a code challenge or verifier was sent although none is configured", det)
+					case method != "" && (l.Challenge == "" || l.Method != method):
+						out.Violation("pkce-nonce/challenge-missing", "the authorization request carries no code challenge although a method is configured", det)
+					case method != "" && (len(presented) != 1 || presented[0] != kept || presented[0] == ""):
+						out.Violation("pkce-nonce/verifier-not-presented", "the verifier kept for this login was not presented (exactly once) when the code was redeemed", det)
+					case method == "S256" && string(vSHA([]byte(presented[0]))) != l.Challenge, method == "plain" && presented[0] != l.Challenge:
+						out.Violation("pkce-nonce/challenge-mismatch", "the challenge sent is not derived from the verifier presented", det)
+					}
+					if method != "" && len(presented) == 1 {
+						if seen[presented[0]] {
+							out.Violation("pkce-nonce/verifier-repeated", "a code verifier was used for two logins", det)
+						}
+						seen[presented[0]] = true
+					}
+					if resource != "" && form.Get("resource") != resource {
+						out.Stat("generic_pkce_resource_missing", 1)
+					}
+				}
+			}
+		}
+	}
+}
+
 func driveC05(t *testing.T, out *vEmitter) {
 	vKeys()
+	defer vC05GenericPKCE(t, out)
 	vC05Legacy(t, out)
 	vC05Discovery(t, out)
 	type behaviour struct {
@@ -454,176 +602,176 @@ func driveC05(t *testing.T, out *vEmitter) {
 	// (Microsoft Entra ID with a list of allowed tenants; its tokens carry the tenant in the issuer)
 	const entraIss = "https://login.microsoftonline.com/tenant-a/v2.0"
 	for _, kind := range []string{"oidc", "entra-id"} {
-	for _, method := range []string{"", "S256", "plain"} {
-		for _, skipNonce := range []bool{false, true} {
-			for _, perReq := range []bool{true, false} {
-				if kind == "entra-id" && (method != "S256" || !perReq) {
-					continue
-				}
-				entra := kind == "entra-id"
-				e := vNewEnv(t, vEnvCfg{oidc: true, mod: func(o *options.Options) {
-					o.Providers[0].CodeChallengeMethod = method
-					o.Providers[0].OIDCConfig.InsecureSkipNonce = skipNonce
-					o.Cookie.CSRFPerRequest = perReq
-					if entra {
-						o.Providers[0].Type = "entra-id"
-						o.Providers[0].OIDCConfig.InsecureSkipIssuerVerification = true
-						o.Providers[0].MicrosoftEntraIDConfig.AllowedTenants = []string{"tenant-a", "tenant-b"}
+		for _, method := range []string{"", "S256", "plain"} {
+			for _, skipNonce := range []bool{false, true} {
+				for _, perReq := range []bool{true, false} {
+					if kind == "entra-id" && (method != "S256" || !perReq) {
+						continue
 					}
-				}})
-				for bi, bh := range behaviours {
-					// two overlapping logins in one browser; complete the first (per-request) or the latest
-					b := e.newBrowser("https://app.example.com")
-					// every other login is started without any query (bare /oauth2/start)
-					rd1, rd2 := "/one", "/two"
-					if bi%2 == 1 {
-						rd1, rd2 = "", ""
-					}
-					l1 := b.start(rd1)
-					l2 := b.start(rd2)
-					for _, lg := range []*vLogin{l1, l2} {
-						for _, prm := range []string{"state", "nonce", "code_challenge", "code_challenge_method", "redirect_uri", "client_id"} {
-							if len(lg.Query[prm]) > 1 {
-								out.Violation("pkce-nonce/parameter-repeated", "the authorization request carries a parameter more than once (values of another login travel with this one)",
-									map[string]interface{}{"parameter": prm, "count": len(lg.Query[prm]), "method": method})
-							}
-						}
-					}
-					this, other := l1, l2
-					if !perReq {
-						this, other = l2, l1
-					}
-					c := vCsrfCookieOf(e, this.Start)
-					rawNonce, rawState, verifier := vCsrfRaw(e.opts.Cookie.Secret, c.Value)
-					// ---- what was sent to the browser must not reveal raw nonces / the verifier ----
-					sent := this.StartLocation + "\n" + strings.Join(this.Start.Header["Set-Cookie"], "\n") + "\n" + this.Start.Body
-					for what, secret := range map[string]string{"state nonce": rawState, "oidc nonce": rawNonce} {
-						if secret != "" && (strings.Contains(sent, secret) || strings.Contains(sent, base64.RawURLEncoding.EncodeToString([]byte(secret))) || strings.Contains(sent, url.QueryEscape(secret))) {
-							out.Violation("pkce-nonce/secret-sent-to-browser", "a raw nonce appears in clear in something sent to the browser", map[string]interface{}{"what": what})
-						}
-					}
-					if method == "S256" && verifier != "" && strings.Contains(sent, verifier) {
-						out.Violation("pkce-nonce/secret-sent-to-browser", "the PKCE verifier appears in clear in something sent to the browser with S256", map[string]interface{}{})
-					}
-					// ---- how each secret is wrapped in the authorization request (0 absent, 1 in clear, 2 hashed, 3 other),
-					// against the symbolic model's shape for this method ----
-					wrapCode := func(param, raw string, hashed string) int64 {
-						switch {
-						case param == "":
-							return 0
-						case param == raw || param == base64.RawURLEncoding.EncodeToString([]byte(raw)):
-							return 1
-						case param == hashed:
-							return 2
-						}
-						return 3
-					}
-					b64sha := func(x string) string {
-						h := sha256.Sum256([]byte(x))
-						return base64.RawURLEncoding.EncodeToString(h[:])
-					}
-					stateHead := this.State
-					if i := strings.Index(stateHead, ":"); i >= 0 {
-						stateHead = stateHead[:i]
-					}
-					msym := map[string]string{"": "none", "plain": "plain", "S256": "s256"}[method]
-					out.Case("symbolic-shape", true,
-						vL(vI(wrapCode(stateHead, rawState, b64sha(rawState))), vI(wrapCode(this.Nonce, rawNonce, b64sha(rawNonce))), vI(wrapCode(this.Challenge, verifier, b64sha(verifier)))),
-						vL("auth_request_shape", vY(msym), vBool(!skipNonce)))
-					// ---- authorization request parameters ----
-					if method != "" {
-						if this.Method != method || this.Challenge == "" {
-							out.Violation("pkce-nonce/challenge-missing", "the authorization request carries no code challenge although a method is configured", map[string]interface{}{"method": method})
-						}
-						want := verifier
-						if method == "S256" {
-							h := sha256.Sum256([]byte(verifier))
-							want = base64.RawURLEncoding.EncodeToString(h[:])
-						}
-						if this.Challenge != want {
-							out.Violation("pkce-nonce/challenge-not-derived-from-verifier", "the code challenge is not derived from the verifier stored for this login", map[string]interface{}{"method": method})
-						}
-						okChars := len(verifier) >= 43 && len(verifier) <= 128
-						for i := 0; i < len(verifier); i++ {
-							ch := verifier[i]
-							if !(ch >= 'a' && ch <= 'z' || ch >= 'A' && ch <= 'Z' || ch >= '0' && ch <= '9' || ch == '-' || ch == '.' || ch == '_' || ch == '~') {
-								okChars = false
-							}
-						}
-						if !okChars {
-							out.Violation("pkce-nonce/verifier-not-rfc7636", "the code verifier is not 43-128 unreserved characters", map[string]interface{}{"len": len(verifier)})
-						}
-						if verifiers[verifier] {
-							out.Violation("pkce-nonce/verifier-repeated", "a code verifier was used for two logins", map[string]interface{}{})
-						}
-						verifiers[verifier] = true
-						if l1.Challenge == l2.Challenge {
-							out.Violation("pkce-nonce/verifier-repeated", "two overlapping logins carry the same code challenge", map[string]interface{}{"per_request": perReq})
-						}
-					} else if this.Challenge != "" {
-						out.Violation("pkce-nonce/unexpected-challenge", "a code challenge was sent although none is configured", map[string]interface{}{})
-					}
-					if !skipNonce && (this.Nonce == "" || l1.Nonce == l2.Nonce) {
-						out.Violation("pkce-nonce/nonce-missing-or-repeated", "the authorization request carries no nonce, or two logins share one", map[string]interface{}{})
-					}
-					// ---- the callback ----
-					var presented string
-					e.idp.onToken = func(form url.Values) (int, string, string, error) {
-						presented = form.Get("code_verifier")
-						extra := map[string]interface{}{}
+					entra := kind == "entra-id"
+					e := vNewEnv(t, vEnvCfg{oidc: true, mod: func(o *options.Options) {
+						o.Providers[0].CodeChallengeMethod = method
+						o.Providers[0].OIDCConfig.InsecureSkipNonce = skipNonce
+						o.Cookie.CSRFPerRequest = perReq
 						if entra {
-							extra["iss"] = entraIss
+							o.Providers[0].Type = "entra-id"
+							o.Providers[0].OIDCConfig.InsecureSkipIssuerVerification = true
+							o.Providers[0].MicrosoftEntraIDConfig.AllowedTenants = []string{"tenant-a", "tenant-b"}
 						}
-						switch v := bh.nonce(this, other, rawNonce).(type) {
+					}})
+					for bi, bh := range behaviours {
+						// two overlapping logins in one browser; complete the first (per-request) or the latest
+						b := e.newBrowser("https://app.example.com")
+						// every other login is started without any query (bare /oauth2/start)
+						rd1, rd2 := "/one", "/two"
+						if bi%2 == 1 {
+							rd1, rd2 = "", ""
+						}
+						l1 := b.start(rd1)
+						l2 := b.start(rd2)
+						for _, lg := range []*vLogin{l1, l2} {
+							for _, prm := range []string{"state", "nonce", "code_challenge", "code_challenge_method", "redirect_uri", "client_id"} {
+								if len(lg.Query[prm]) > 1 {
+									out.Violation("pkce-nonce/parameter-repeated", "the authorization request carries a parameter more than once (values of another login travel with this one)",
+										map[string]interface{}{"parameter": prm, "count": len(lg.Query[prm]), "method": method})
+								}
+							}
+						}
+						this, other := l1, l2
+						if !perReq {
+							this, other = l2, l1
+						}
+						c := vCsrfCookieOf(e, this.Start)
+						rawNonce, rawState, verifier := vCsrfRaw(e.opts.Cookie.Secret, c.Value)
+						// ---- what was sent to the browser must not reveal raw nonces / the verifier ----
+						sent := this.StartLocation + "\n" + strings.Join(this.Start.Header["Set-Cookie"], "\n") + "\n" + this.Start.Body
+						for what, secret := range map[string]string{"state nonce": rawState, "oidc nonce": rawNonce} {
+							if secret != "" && (strings.Contains(sent, secret) || strings.Contains(sent, base64.RawURLEncoding.EncodeToString([]byte(secret))) || strings.Contains(sent, url.QueryEscape(secret))) {
+								out.Violation("pkce-nonce/secret-sent-to-browser", "a raw nonce appears in clear in something sent to the browser", map[string]interface{}{"what": what})
+							}
+						}
+						if method == "S256" && verifier != "" && strings.Contains(sent, verifier) {
+							out.Violation("pkce-nonce/secret-sent-to-browser", "the PKCE verifier appears in clear in something sent to the browser with S256", map[string]interface{}{})
+						}
+						// ---- how each secret is wrapped in the authorization request (0 absent, 1 in clear, 2 hashed, 3 other),
+						// against the symbolic model's shape for this method ----
+						wrapCode := func(param, raw string, hashed string) int64 {
+							switch {
+							case param == "":
+								return 0
+							case param == raw || param == base64.RawURLEncoding.EncodeToString([]byte(raw)):
+								return 1
+							case param == hashed:
+								return 2
+							}
+							return 3
+						}
+						b64sha := func(x string) string {
+							h := sha256.Sum256([]byte(x))
+							return base64.RawURLEncoding.EncodeToString(h[:])
+						}
+						stateHead := this.State
+						if i := strings.Index(stateHead, ":"); i >= 0 {
+							stateHead = stateHead[:i]
+						}
+						msym := map[string]string{"": "none", "plain": "plain", "S256": "s256"}[method]
+						out.Case("symbolic-shape", true,
+							vL(vI(wrapCode(stateHead, rawState, b64sha(rawState))), vI(wrapCode(this.Nonce, rawNonce, b64sha(rawNonce))), vI(wrapCode(this.Challenge, verifier, b64sha(verifier)))),
+							vL("auth_request_shape", vY(msym), vBool(!skipNonce)))
+						// ---- authorization request parameters ----
+						if method != "" {
+							if this.Method != method || this.Challenge == "" {
+								out.Violation("pkce-nonce/challenge-missing", "the authorization request carries no code challenge although a method is configured", map[string]interface{}{"method": method})
+							}
+							want := verifier
+							if method == "S256" {
+								h := sha256.Sum256([]byte(verifier))
+								want = base64.RawURLEncoding.EncodeToString(h[:])
+							}
+							if this.Challenge != want {
+								out.Violation("pkce-nonce/challenge-not-derived-from-verifier", "the code challenge is not derived from the verifier stored for this login", map[string]interface{}{"method": method})
+							}
+							okChars := len(verifier) >= 43 && len(verifier) <= 128
+							for i := 0; i < len(verifier); i++ {
+								ch := verifier[i]
+								if !(ch >= 'a' && ch <= 'z' || ch >= 'A' && ch <= 'Z' || ch >= '0' && ch <= '9' || ch == '-' || ch == '.' || ch == '_' || ch == '~') {
+									okChars = false
+								}
+							}
+							if !okChars {
+								out.Violation("pkce-nonce/verifier-not-rfc7636", "the code verifier is not 43-128 unreserved characters", map[string]interface{}{"len": len(verifier)})
+							}
+							if verifiers[verifier] {
+								out.Violation("pkce-nonce/verifier-repeated", "a code verifier was used for two logins", map[string]interface{}{})
+							}
+							verifiers[verifier] = true
+							if l1.Challenge == l2.Challenge {
+								out.Violation("pkce-nonce/verifier-repeated", "two overlapping logins carry the same code challenge", map[string]interface{}{"per_request": perReq})
+							}
+						} else if this.Challenge != "" {
+							out.Violation("pkce-nonce/unexpected-challenge", "a code challenge was sent although none is configured", map[string]interface{}{})
+						}
+						if !skipNonce && (this.Nonce == "" || l1.Nonce == l2.Nonce) {
+							out.Violation("pkce-nonce/nonce-missing-or-repeated", "the authorization request carries no nonce, or two logins share one", map[string]interface{}{})
+						}
+						// ---- the callback ----
+						var presented string
+						e.idp.onToken = func(form url.Values) (int, string, string, error) {
+							presented = form.Get("code_verifier")
+							extra := map[string]interface{}{}
+							if entra {
+								extra["iss"] = entraIss
+							}
+							switch v := bh.nonce(this, other, rawNonce).(type) {
+							case nil:
+							case vJSONNull:
+								extra["nonce"] = nil
+								cl := vClaims("user@example.com", extra)
+								cl["nonce"] = nil
+								return 200, "application/json", vTokenJSON(vJWT(vKeyRSA, "RS256", cl), "at", "rt", 3600), nil
+							default:
+								extra["nonce"] = v
+							}
+							return 200, "application/json", vTokenJSON(vJWT(vKeyRSA, "RS256", vClaims("user@example.com", extra)), "at", "rt", 3600), nil
+						}
+						cb := b.callback(this.State, "code")
+						issued := e.sessionCookieSet(cb)
+						claim := bh.nonce(this, other, rawNonce)
+						claimSX := vL(vY("absent"))
+						switch v := claim.(type) {
 						case nil:
 						case vJSONNull:
-							extra["nonce"] = nil
-							cl := vClaims("user@example.com", extra)
-							cl["nonce"] = nil
-							return 200, "application/json", vTokenJSON(vJWT(vKeyRSA, "RS256", cl), "at", "rt", 3600), nil
+							claimSX = vJSONSX(nil)
 						default:
-							extra["nonce"] = v
+							claimSX = vJSONSX(v)
 						}
-						return 200, "application/json", vTokenJSON(vJWT(vKeyRSA, "RS256", vClaims("user@example.com", extra)), "at", "rt", 3600), nil
-					}
-					cb := b.callback(this.State, "code")
-					issued := e.sessionCookieSet(cb)
-					claim := bh.nonce(this, other, rawNonce)
-					claimSX := vL(vY("absent"))
-					switch v := claim.(type) {
-					case nil:
-					case vJSONNull:
-						claimSX = vJSONSX(nil)
-					default:
-						claimSX = vJSONSX(v)
-					}
-					out.Case("nonce", true, vBool(issued),
-						vL("nonce_ok", vBool(skipNonce), vS(rawNonce), vS(string(vSHA([]byte(rawNonce)))), claimSX))
-					_ = claimSX
-					out.Stat("logins", 1)
-					want := bh.ok || skipNonce
-					if bh.label == "number" {
-						want = false // go-oidc decodes `nonce` into a string field: a number fails verification itself
-					}
-					if issued && !want {
-						out.Violation("pkce-nonce/session-with-wrong-nonce", "a session was issued although the ID token does not carry this login's hashed nonce",
-							map[string]interface{}{"behaviour": bh.label, "method": method, "per_request": perReq})
-					}
-					if !issued && want {
-						out.Violation("pkce-nonce/correct-nonce-refused", "a login echoing the correct nonce was refused",
-							map[string]interface{}{"behaviour": bh.label, "method": method, "per_request": perReq, "status": cb.Status})
-					}
-					if method != "" && presented != verifier {
-						out.Violation("pkce-nonce/wrong-verifier-at-redemption", "the verifier presented at redemption is not the one of this login's authorization request",
-							map[string]interface{}{"method": method, "per_request": perReq})
-					}
-					if method == "" && presented != "" {
-						out.Violation("pkce-nonce/unexpected-verifier", "a code verifier was presented although PKCE is off", map[string]interface{}{})
+						out.Case("nonce", true, vBool(issued),
+							vL("nonce_ok", vBool(skipNonce), vS(rawNonce), vS(string(vSHA([]byte(rawNonce)))), claimSX))
+						_ = claimSX
+						out.Stat("logins", 1)
+						want := bh.ok || skipNonce
+						if bh.label == "number" {
+							want = false // go-oidc decodes `nonce` into a string field: a number fails verification itself
+						}
+						if issued && !want {
+							out.Violation("pkce-nonce/session-with-wrong-nonce", "a session was issued although the ID token does not carry this login's hashed nonce",
+								map[string]interface{}{"behaviour": bh.label, "method": method, "per_request": perReq})
+						}
+						if !issued && want {
+							out.Violation("pkce-nonce/correct-nonce-refused", "a login echoing the correct nonce was refused",
+								map[string]interface{}{"behaviour": bh.label, "method": method, "per_request": perReq, "status": cb.Status})
+						}
+						if method != "" && presented != verifier {
+							out.Violation("pkce-nonce/wrong-verifier-at-redemption", "the verifier presented at redemption is not the one of this login's authorization request",
+								map[string]interface{}{"method": method, "per_request": perReq})
+						}
+						if method == "" && presented != "" {
+							out.Violation("pkce-nonce/unexpected-verifier", "a code verifier was presented although PKCE is off", map[string]interface{}{})
+						}
 					}
 				}
 			}
 		}
-	}
 	}
 }
 
@@ -652,22 +800,34 @@ func vIdPFaults(validToken string) []vIdPFault {
 	big := strings.Repeat("x", 3<<20)
 	return []vIdPFault{
 		{"500", func() (int, string, string, error) { return 500, "text/plain", "boom", nil }},
-		{"503-json", func() (int, string, string, error) { return 503, "application/json", `{"error":"temporarily_unavailable"}`, nil }},
+		{"503-json", func() (int, string, string, error) {
+			return 503, "application/json", `{"error":"temporarily_unavailable"}`, nil
+		}},
 		{"400", func() (int, string, string, error) { return 400, "application/json", `{"error":"invalid_grant"}`, nil }},
 		{"401", func() (int, string, string, error) { return 401, "application/json", `{"error":"invalid_client"}`, nil }},
 		{"connection-reset", func() (int, string, string, error) { return 0, "", "", errors.New("read: connection reset by peer") }},
 		{"timeout", func() (int, string, string, error) { return 0, "", "", context.DeadlineExceeded }},
 		{"empty-body", func() (int, string, string, error) { return 200, "application/json", "", nil }},
-		{"truncated-json", func() (int, string, string, error) { return 200, "application/json", `{"access_token":"at","id_tok`, nil }},
+		{"truncated-json", func() (int, string, string, error) {
+			return 200, "application/json", `{"access_token":"at","id_tok`, nil
+		}},
 		{"not-json", func() (int, string, string, error) { return 200, "text/html", "<html>login</html>", nil }},
 		{"json-array", func() (int, string, string, error) { return 200, "application/json", `["a","b"]`, nil }},
-		{"missing-id-token", func() (int, string, string, error) { return 200, "application/json", `{"access_token":"at","token_type":"Bearer","expires_in":3600}`, nil }},
+		{"missing-id-token", func() (int, string, string, error) {
+			return 200, "application/json", `{"access_token":"at","token_type":"Bearer","expires_in":3600}`, nil
+		}},
 		{"missing-access-token", func() (int, string, string, error) {
 			return 200, "application/json", `{"id_token":"` + validToken + `","token_type":"Bearer"}`, nil
 		}},
-		{"id-token-number", func() (int, string, string, error) { return 200, "application/json", `{"access_token":"at","id_token":12345,"token_type":"Bearer"}`, nil }},
-		{"id-token-garbage", func() (int, string, string, error) { return 200, "application/json", `{"access_token":"at","id_token":"a.b.c","token_type":"Bearer"}`, nil }},
-		{"oversized", func() (int, string, string, error) { return 200, "application/json", `{"access_token":"` + big + `","id_token":"a.b","token_type":"Bearer"}`, nil }},
+		{"id-token-number", func() (int, string, string, error) {
+			return 200, "application/json", `{"access_token":"at","id_token":12345,"token_type":"Bearer"}`, nil
+		}},
+		{"id-token-garbage", func() (int, string, string, error) {
+			return 200, "application/json", `{"access_token":"at","id_token":"a.b.c","token_type":"Bearer"}`, nil
+		}},
+		{"oversized", func() (int, string, string, error) {
+			return 200, "application/json", `{"access_token":"` + big + `","id_token":"a.b","token_type":"Bearer"}`, nil
+		}},
 		{"expires-in-string", func() (int, string, string, error) {
 			return 200, "application/json", `{"access_token":"at","id_token":"` + validToken + `","token_type":"Bearer","expires_in":"soon"}`, nil
 		}},
@@ -959,7 +1119,6 @@ func vC14ModelCases(t *testing.T, out *vEmitter) {
 	}
 }
 
-
 // vC14GenericProvider: a provider of the non-OIDC family (ProviderData.Redeem, a profile lookup for the e-mail
 // address, validateToken against a validation endpoint - here the DigitalOcean provider pointed at the in-memory
 // identity provider) under the same response kinds, plus connections reset in the middle of a body whose
@@ -987,19 +1146,31 @@ func vC14GenericProvider(t *testing.T, out *vEmitter) {
 		{"ok", func(ok string) (int, string, string, error) { return 200, "application/json", ok, nil }, true},
 		{"500", func(ok string) (int, string, string, error) { return 500, "text/plain", "boom", nil }, false},
 		{"503-json", func(ok string) (int, string, string, error) { return 503, "application/json", ok, nil }, false},
-		{"401", func(ok string) (int, string, string, error) { return 401, "application/json", `{"id":"unauthorized"}`, nil }, false},
+		{"401", func(ok string) (int, string, string, error) {
+			return 401, "application/json", `{"id":"unauthorized"}`, nil
+		}, false},
 		{"404", func(ok string) (int, string, string, error) { return 404, "text/plain", "", nil }, false},
-		{"connection-reset", func(ok string) (int, string, string, error) { return 0, "", "", fmt.Errorf("read: connection reset by peer") }, false},
+		{"connection-reset", func(ok string) (int, string, string, error) {
+			return 0, "", "", fmt.Errorf("read: connection reset by peer")
+		}, false},
 		{"body-reset-at-0", func(ok string) (int, string, string, error) { return 200, "application/json", ok, vBodyFault{0} }, false},
-		{"body-reset-midway", func(ok string) (int, string, string, error) { return 200, "application/json", ok, vBodyFault{len(ok) / 2} }, false},
-		{"body-reset-before-last-bytes", func(ok string) (int, string, string, error) { return 200, "application/json", ok, vBodyFault{len(ok) - 2} }, false},
+		{"body-reset-midway", func(ok string) (int, string, string, error) {
+			return 200, "application/json", ok, vBodyFault{len(ok) / 2}
+		}, false},
+		{"body-reset-before-last-bytes", func(ok string) (int, string, string, error) {
+			return 200, "application/json", ok, vBodyFault{len(ok) - 2}
+		}, false},
 	}
 	malformed := []kind{
 		{"empty-body", func(ok string) (int, string, string, error) { return 200, "application/json", "", nil }, true},
 		{"truncated-json", func(ok string) (int, string, string, error) { return 200, "application/json", ok[:len(ok)/2], nil }, true},
 		{"not-json", func(ok string) (int, string, string, error) { return 200, "text/html", "<html>maintenance</html>", nil }, true},
-		{"missing-field", func(ok string) (int, string, string, error) { return 200, "application/json", `{"unrelated":true}`, nil }, true},
-		{"wrong-type", func(ok string) (int, string, string, error) { return 200, "application/json", `{"access_token":{"a":1},"account":{"email":17}}`, nil }, true},
+		{"missing-field", func(ok string) (int, string, string, error) {
+			return 200, "application/json", `{"unrelated":true}`, nil
+		}, true},
+		{"wrong-type", func(ok string) (int, string, string, error) {
+			return 200, "application/json", `{"access_token":{"a":1},"account":{"email":17}}`, nil
+		}, true},
 	}
 	okAccount := `{"account":{"email":"user@example.com","uuid":"u-1","status":"active"}}`
 	tokenBodies := map[string]string{
@@ -1092,7 +1263,9 @@ func vC14GenericProvider(t *testing.T, out *vEmitter) {
 			}
 		}
 	}
-	e.idp.onPath["/do/token"] = func(*http.Request) (int, string, string, error) { return 200, "application/json", tokenBodies["json"], nil }
+	e.idp.onPath["/do/token"] = func(*http.Request) (int, string, string, error) {
+		return 200, "application/json", tokenBodies["json"], nil
+	}
 	for _, k := range append(append([]kind(nil), kinds...), malformed...) {
 		setAccount(k)
 		b := e.newBrowser("https://app.example.com")
@@ -1132,7 +1305,6 @@ func vC14GenericProvider(t *testing.T, out *vEmitter) {
 	}
 	setAccount(kinds[0])
 }
-
 
 // vC05Legacy: the code-challenge method given through the command-line / config-file options
 // (code-challenge-method and its deprecated alias force-code-challenge-method) reaches the authorization request.
@@ -1177,7 +1349,6 @@ func vC05Legacy(t *testing.T, out *vEmitter) {
 		}
 	}
 }
-
 
 // vC05Discovery: the provider is configured through OIDC discovery, whose document advertises all, some or none
 // of the code-challenge methods.  The operator's configured method is the one used, whatever the document lists;
